@@ -1,5 +1,7 @@
 import OxyModel.Proofs.RateLimit.Limiter
 import OxyModel.Proofs.RateLimit.PerRequest
+import OxyModel.Proofs.RateLimit.HeapLimiter
+import OxyModel.Proofs.RateLimit.Refine
 import OxyModel.Proofs.ConnLimit.NonInterference
 
 /-!
@@ -71,12 +73,12 @@ theorem C14_rate_noninterference_rates (l : Limiter) (hnd : l.sets.keys.Nodup) (
   · exact fun r hr => List.mem_append_right _ (List.mem_map_of_mem hr)
   · exact hcap
 
-/-- **Over capacity: only the entry nearest to expiry is forgotten.**  When a request of an untracked
-    source `src` finds the map full, then for *every* legal choice `victim` of the heap (an entry of
-    minimal expiry): the victim was tracked and no tracked entry expires earlier; it is forgotten, so
-    its next request starts from a new, full bucket set; the entry (bucket set *and* expiry) of every
-    other source is exactly what it was; and `src` is tracked now. -/
-theorem C14_evict_min_only (l : Limiter) (now : Nat) (src : String) (amount : Nat) (rr : List Rate) (victim : String)
+/-- Relational form (the heap left abstract): when a request of an untracked source `src` finds the map
+    full, then for every `victim` that satisfies `isMin` (tracked, no tracked entry expires earlier — this is a
+    *hypothesis* here, discharged for the modelled heap in `C14_evict_min_only`): it is forgotten, so its next
+    request starts from a new, full bucket set; the entry (bucket set *and* expiry) of every other source is exactly
+    what it was; and `src` is tracked now.  Covers every way of breaking ties among equal expiries. -/
+theorem C14_evict_min_only_rel (l : Limiter) (now : Nat) (src : String) (amount : Nat) (rr : List Rate) (victim : String)
     (hev : l.evictsAt now src = true) (hleg : (l.sets.get src now).1.isMin victim = true) :
     (∃ e, (l.sets.get src now).1.find? victim = some e ∧
         ∀ e' ∈ (l.sets.get src now).1.entries, e.expiry ≤ e'.expiry) ∧
@@ -109,6 +111,61 @@ theorem C14_evict_min_only (l : Limiter) (now : Nat) (src : String) (amount : Na
       exact serve_find_other l now src s amount rr victim hs (fun _ => fun h => hsv h.symm)
     · exact ⟨_, serve_find_self l now src amount rr victim⟩
 
+/-! ### the expiry heap
+
+`HLimiter` = the limiter whose TTL map carries the `container/heap` of `(key, expiry)` exactly as
+`ttlmap.go` / `priority_queue.go` drive it (`Model/Heap.lean`: `up`, `down`, `Push`, `Pop`, `Remove`; `Update` =
+`Remove` + `Push`).  The victim is the heap top, so nothing is assumed about it any more. -/
+
+/-- map and heap agree (same `(key, expiry)` pairs, distinct keys, heap order) in every reachable state, for every
+    history of `(time, source, amount, rates)` requests -/
+theorem C14_heap_consistent (rates : List Rate) (capacity : Nat) (reqs : List (Nat × String × Nat × List Rate)) :
+    HCons ((HLimiter.new rates capacity).after reqs) :=
+  hcons_after reqs _ (hcons_new rates capacity)
+
+/-- the heap operations keep the heap order and `Peek`/`Pop` yield a minimal element (`container/heap`) -/
+theorem C14_heap_pop_isMin (h : Heap.T) (hinv : Heap.Inv h h.length) (x : Heap.Item) (hx : Heap.top h = some x) :
+    (∀ y ∈ h, x.2 ≤ y.2) ∧ (x :: Heap.pop h).Perm h ∧ Heap.Inv (Heap.pop h) (Heap.pop h).length ∧
+    (∀ y, Heap.Inv (Heap.push h y) (Heap.push h y).length) ∧
+    (∀ k p, Heap.Inv (Heap.update h k p) (Heap.update h k p).length) ∧
+    (∀ k, Heap.Inv (Heap.removeKey h k) (Heap.removeKey h k).length) := by
+  refine ⟨Heap.top_le_all h hinv x hx, Heap.pop_perm h x hx, ?_, ?_, fun k p => Heap.update_inv h k p hinv,
+    fun k => Heap.removeKey_inv h k hinv⟩
+  · rw [Heap.pop_length]; exact Heap.pop_inv h hinv
+  · intro y; rw [Heap.push_length]; exact Heap.push_inv h y hinv
+
+/-- **Over capacity: only the entry nearest to expiry is forgotten.**  In every state in which map and heap
+    agree (`C14_heap_consistent`: every reachable state), when a request of an untracked source `src` finds the map
+    full, the entry `v` the modelled heap hands out was tracked and *no tracked entry expires earlier*; `v ≠ src`;
+    `v` is forgotten, so its next request starts from a new, full bucket set; the entry (bucket set and expiry) of
+    every other source is exactly what it was; `src` is tracked now. -/
+theorem C14_evict_min_only (hl : HLimiter) (hc : HCons hl) (now : Nat) (src : String) (amount : Nat) (rr : List Rate)
+    (hev : hl.base.evictsAt now src = true) :
+    (∃ e, (hl.base.sets.get src now).1.find? (hl.victimAt now src) = some e ∧
+        ∀ e' ∈ (hl.base.sets.get src now).1.entries, e.expiry ≤ e'.expiry) ∧
+    hl.victimAt now src ≠ src ∧
+    (hl.serve now src amount rr).1.base.sets.find? (hl.victimAt now src) = none ∧
+    (∀ now' rates, (hl.serve now src amount rr).1.base.current now' (hl.victimAt now src) rates = BucketSet.new rates now') ∧
+    (∀ s, s ≠ src → s ≠ hl.victimAt now src → (hl.serve now src amount rr).1.base.sets.find? s = hl.base.sets.find? s) ∧
+    (∃ e, (hl.serve now src amount rr).1.base.sets.find? src = some e) :=
+  C14_evict_min_only_rel hl.base now src amount rr (hl.victimAt now src) hev (victimAt_isMin hl hc now src hev)
+
+/-- **A forgotten source starts afresh** (history level): if `s` is the victim of this request, then along any
+    further history in which it is not evicted again its decisions are exactly those of its own later requests
+    on a brand-new limiter.  (Together with `C14_evict_others_unchanged` for the stretches in between this splits
+    every history at the evictions of `s`.) -/
+theorem C14_evicted_restarts (l : Limiter) (now : Nat) (src : String) (amount : Nat) (rr : List Rate) (s : String)
+    (hev : l.evictsAt now src = true) (hleg : (l.sets.get src now).1.isMin s = true)
+    (rest : List Req) (hsp : (l.serve now src amount rr s).1.spares s rest) (capacity : Nat) :
+    (l.serve now src amount rr s).1.decisionsFor s rest
+      = (Limiter.new l.defaults capacity).run (rest.filter (fun r => r.src = s)) := by
+  have hgone := (C14_evict_min_only_rel l now src amount rr s hev hleg).2.2.1
+  rw [decisions_eq_entryRun s rest _ hsp, run_own_eq_entryRun, hgone, serve_defaults]
+  have : (Limiter.new l.defaults capacity).sets.find? s = none := by
+    simp [Limiter.new, TTL.empty, Map.find?]
+  rw [this]
+  rfl
+
 /-- **Connection limiter.**  For every interleaving of starts and finishes of any number of sources,
     the decisions taken for `src` equal those of its own sub-history run alone (proved with C04's
     model in `Proofs/ConnLimit/NonInterference.lean`). -/
@@ -140,6 +197,10 @@ example : (Limiter.new [⟨1000000000, 1, 2⟩] 2).decisionsFor "a" [⟨0, "a", 
 example : (Limiter.new [⟨1000000000, 1, 1⟩] 2).decisionsForR "a"
     [⟨0, "a", 1, [], ""⟩, ⟨0, "a", 1, [], ""⟩, ⟨0, "b", 1, [⟨2000000000, 1, 2⟩], ""⟩, ⟨0, "a", 1, [⟨2000000000, 1, 2⟩], ""⟩]
     = [.ok, .tooMany 1000000000, .ok] := by decide
+-- a reachable state of the limiter-with-heap in which a third source makes the map evict: map and heap agree there
+example : HCons ((HLimiter.new [⟨1000000000, 1, 2⟩] 2).after [(0, "a", 2, []), (2000000000, "b", 1, [])]) ∧
+    ((HLimiter.new [⟨1000000000, 1, 2⟩] 2).after [(0, "a", 2, []), (2000000000, "b", 1, [])]).base.evictsAt 3000000000 "c" = true :=
+  ⟨C14_heap_consistent _ _ _, by decide⟩
 end NonVacuity
 
 end C14
